@@ -484,6 +484,8 @@ static double evalSum(const json &sum)
             r += c * n;
         else if (f == "sp")
             r += c * PI * std::sqrt(n);
+        else if (f == "inf")
+            r += std::numeric_limits<double>::infinity();   // SpaceTime: no motion within the speed limit
         else
             throw std::runtime_error("unknown term kind " + f);
     }
@@ -492,6 +494,8 @@ static double evalSum(const json &sum)
 
 static bool close(double x, double y)
 {
+    if (x == y)
+        return true;   // also two infinities
     return std::fabs(x - y) <= 1e-12 + 1e-12 * std::max(std::fabs(x), std::fabs(y));
 }
 
@@ -689,6 +693,18 @@ static int replay06(const std::string &path)
             bool eq = cur.sp->equalStates(a(), b());
             if (eq != c["eq"].get<bool>())
                 ++drift[id + ":equalStates-differs-from-model"];
+            if (cur.fam == "spacetime")
+            {
+                // the time the library says the motion needs at vMax, against the model's
+                ++evals;
+                double ttc = cur.sp->as<ob::SpaceTimeStateSpace>()->timeToCoverDistance(a(), b()), e = evalSum(c["ttc"]);
+                if (!close(ttc, e))
+                {
+                    char buf[200];
+                    snprintf(buf, sizeof buf, "timeToCoverDistance(a,b) = %.17g, the lattice model says %.17g", ttc, e);
+                    rep.fail("c06:" + id + ":time-to-cover", buf, brief);
+                }
+            }
             if (c["a"] == c["b"])
             {
                 Scoped a2(cur);
@@ -1474,6 +1490,9 @@ static long long fx(double d, bool &nonfinite)
     return vt::tlcInt(std::llround(d * 1e6));
 }
 
+// tangent-bundle space: how far re-projecting a state that is already on the manifold may move it (see below)
+static const double TB_REPROJECT = 2e-4;
+
 static json spaceEvent(const Shipped &sh, const Node &nd)
 {
     double ext = nd.sp->getMaximumExtent();
@@ -1766,7 +1785,6 @@ static std::vector<Probe> probes(const Node &nd, vt::Rng &r, bool interp)
 
 
 // ------------------------------------------------------------------ observations of the new families
-static const double TB_REPROJECT = 2e-4;   // see spaceEvent()
 
 static long long fx4(double d, bool &nonfinite)   // 1e-4 units (chords against path lengths: products stay 32-bit)
 {
